@@ -21,6 +21,7 @@ mod replicas;
 mod c10;
 mod c12;
 mod c15;
+mod c16;
 mod c18;
 mod msgs;
 
@@ -43,7 +44,8 @@ fn parts_for(id: &str) -> Option<(&'static str, Vec<Box<dyn DynPart>>, Vec<Strin
         "C09" => ("C09", c09::parts(), none),
         "C10" => ("C10", c10::parts(), none),
         "C12" => ("C12", c12::parts(), none),
-        "C15" => ("C15", c15::parts(), none),
+        "C15" => ("C15", c15::parts_all(), none),
+        "C16" => ("C16", c16::parts(), none),
         "C18" => ("C18", c18::parts(), none),
         _ => return None,
     })
